@@ -324,7 +324,9 @@ def gen_case(rng, profile, idx=0):
 NEG_KINDS = ["count-", "count+", "abi-break", "abi-wrongkind", "plain-uint-expr", "plain-none-expr", "plain-pyobj", "plain-dict",
              "plain-refinst", "plain-txninst", "ref-abi", "ref-wrong-refinst", "ref-wrong-expr", "ref-dict", "ref-pyobj",
              "txn-notdict", "txn-no-enum", "txn-int-enum", "txn-wrong-kind", "txn-odd-enum", "txn-field-type", "txn-field-shape",
-             "txn-field-nonexpr", "appid-bytes", "appid-pyobj", "extra-type", "extra-shape", "sig-uint24", "ret-uint128", "abi-spell"]
+             "txn-field-nonexpr", "appid-bytes", "appid-pyobj", "extra-type", "extra-shape", "sig-uint24", "ret-uint128", "abi-spell",
+             "arity-short", "arity-long", "arity-nested", "sarr-len", "darr-vs-sarr"]
+ARITY_KINDS = ("arity-short", "arity-long", "arity-nested", "sarr-len", "darr-vs-sarr")
 
 
 def denamed(t):
@@ -374,6 +376,100 @@ def breaking_type(rng, t):
         except Exception:
             continue
     return ("tuple", t, "bool")
+
+
+def arity_pair(rng, kind):
+    """(parameter type, instance type): the same up to spelling except for ONE arity / length mismatch, placed so that
+    the shared prefix of the members is pairwise assignable (what zip() would still compare)"""
+    leaf = lambda: rng.choice([("uint", 64), ("uint", 64), ("uint", 8), "bool", "byte", "string", "address", ("uint", 32)])
+
+    def tup(n):
+        return ("tuple",) + tuple(leaf() if rng.random() < 0.8 else ("darr", leaf()) for _ in range(n))
+
+    def shorter(t):
+        k = rng.randrange(0, len(t) - 1)            # keep k members (possibly none): a proper prefix
+        return ("tuple",) + tuple(respell(rng, x) for x in t[1:1 + k])
+
+    def longer(t):
+        return ("tuple",) + tuple(respell(rng, x) for x in t[1:]) + tuple(leaf() for _ in range(rng.choice([1, 1, 2])))
+
+    def wrap(inner_p, inner_a):
+        w = rng.randrange(5)
+        pre = tuple(leaf() for _ in range(rng.choice([0, 1, 2])))
+        post = tuple(leaf() for _ in range(rng.choice([0, 1])))
+        if w == 0:
+            return ("darr", inner_p), ("darr", inner_a)
+        if w == 1:
+            n = rng.choice([1, 2, 3])
+            return ("sarr", inner_p, n), ("sarr", inner_a, n)
+        if w == 2:
+            return ("tuple",) + pre + (inner_p,) + post, ("tuple",) + tuple(respell(rng, x) for x in pre) + (inner_a,) + post
+        if w == 3:
+            return ("tuple", ("darr", inner_p)) + post, ("tuple", ("darr", inner_a)) + post
+        return ("tuple",) + pre + (("tuple", inner_p),), ("tuple",) + pre + (("tuple", inner_a),)
+
+    if kind == "arity-short":
+        t = tup(rng.choice([1, 2, 3, 3, 4]))
+        return t, shorter(t)
+    if kind == "arity-long":
+        t = tup(rng.choice([0, 1, 2, 3]))
+        return t, longer(t)
+    if kind == "arity-nested":
+        t = tup(rng.choice([1, 2, 3]))
+        a = shorter(t) if rng.random() < 0.5 else longer(t)
+        p2, a2 = wrap(t, a)
+        if rng.random() < 0.3:
+            p2, a2 = wrap(p2, a2)
+        return p2, a2
+    if kind == "sarr-len":
+        e = rng.choice([leaf(), tup(2)])
+        n = rng.choice([1, 2, 3, 32])
+        m = rng.choice([x for x in (n - 1, n + 1, 0) if x >= 0 and x != n])
+        p, a = ("sarr", e, n), ("sarr", respell(rng, e), m)
+        if bytish(e) and rng.random() < 0.5:
+            a = ("sbytes", m)
+        return (p, a) if rng.random() < 0.6 else wrap(p, a)
+    e = rng.choice([leaf(), tup(2)])
+    n = rng.choice([0, 1, 2, 3])
+    p, a = ("darr", e), ("sarr", respell(rng, e), n)
+    if rng.random() < 0.5:
+        p, a = ("sarr", e, n), ("darr", respell(rng, e))
+    return (p, a) if rng.random() < 0.6 else wrap(p, a)
+
+
+def arity_arg(rng, a):
+    return ("abi", a, A.gen_value(layout(a), rng, text=True, maxlen=3), rng.choice(["decode-const", "decode-const", "decode-arg"]))
+
+
+def directed_negatives(rng):
+    """a fixed list of shape mismatches (always run): parameter type, instance type"""
+    U, B = ("uint", 64), "bool"
+    pairs = [
+        (("tuple", U, U, U), ("tuple", U, U)),                       # fewer members, shared prefix assignable
+        (("tuple", U, U), ("tuple", U, U, U)),                       # more members
+        (("tuple", U), ("tuple",)),                                  # the empty prefix
+        (("tuple",), ("tuple", U)),
+        (("tuple", "byte", "string"), ("tuple", ("uint", 8))),       # prefix assignable only through a respelling
+        (("tuple", ("sarr", "byte", 32), U), ("tuple", "address")),
+        (("tuple", U, ("tuple", B, U)), ("tuple", U, ("tuple", B))),             # arity mismatch inside a nested tuple
+        (("tuple", U, ("tuple", B)), ("tuple", U, ("tuple", B, U))),
+        (("darr", ("tuple", U, U)), ("darr", ("tuple", U))),                     # ... inside T[]
+        (("sarr", ("tuple", U, U), 2), ("sarr", ("tuple", U, U, B), 2)),         # ... inside T[N]
+        (("tuple", ("darr", ("tuple", "string", U))), ("tuple", ("darr", ("tuple", "string")))),
+        (("sarr", U, 3), ("sarr", U, 2)), (("sarr", U, 2), ("sarr", U, 3)),      # static array length
+        (("sarr", "byte", 32), ("sbytes", 31)), (("sarr", "byte", 31), "address"),
+        (("darr", U), ("sarr", U, 3)), (("sarr", U, 3), ("darr", U)),            # T[] vs T[N]
+        (("darr", "byte"), ("sbytes", 4)), (("sarr", "byte", 4), "string"),
+        (("tuple", U, U, U), A.realistic_named(("a", "b"), (U, U))),             # a NamedTuple instance of another arity
+    ]
+    out = []
+    for i, (p, a) in enumerate(pairs):
+        pre = [("uint", 64)] if i % 3 == 1 else []
+        c = {"name": "store", "params": pre + [p], "ret": None if i % 2 else ("uint", 64), "app_id": ("x", "uint", 5, "const"),
+             "args": [gen_arg(rng, t) for t in pre] + [arity_arg(rng, a)], "extra": [],
+             "api": ["MethodCall", "ExecuteMethodCall"][i % 2], "expect": "reject", "neg": "directed-shape"}
+        out.append(c)
+    return out
 
 
 def gen_negative(rng, idx):
@@ -487,6 +583,21 @@ def gen_negative(rng, idx):
         elif kind == "extra-shape":
             c["extra"] = dedup_fields(c["extra"] + [rng.choice([("Fee", ("list", [("x", "uint", 1, "const")])), ("Assets", ("x", "uint", 1, "const")),
                                                                ("Note", ("arr", "accounts")), ("Fee", ("other", "int"))])])
+        elif kind in ARITY_KINDS:
+            p, a = arity_pair(rng, kind)
+            try:
+                if layout(p) == layout(a) or len(ref_encode(a, A.gen_value(layout(a), random_probe(), text=True, maxlen=3))) > 500:
+                    continue
+            except Exception:
+                continue
+            if plain and rng.random() < 0.6:
+                i = rng.choice(plain)
+                ps[i] = p
+            else:
+                i = rng.randrange(len(ps) + 1)
+                ps.insert(i, p)
+                args.insert(i, None)
+            args[i] = arity_arg(rng, a)
         elif kind == "sig-uint24":
             if not plain:
                 continue
@@ -1276,6 +1387,7 @@ def main(argv):
         cases += [("corpus", normalize_case(jl(c))) for c in json.load(open(CORPUS))]
     cases.append(("finding", finding_case()))
     cases += [("small", c) for c in small_cases(ck.rng)]
+    cases += [("directed", c) for c in directed_negatives(ck.rng)]
     nrand = 6000 if thorough else 600
     profiles = ["any", "cutoff", "small", "txnheavy", "refheavy", "any", "small"]
     for i in range(nrand):
